@@ -6,10 +6,23 @@ import (
 	"github.com/gin-gonic/gin"
 )
 
+// ClientIP returns the IP of an HTTP client, replaced by the real IP passed by any proxy in between.
+// gin's ClientIP() is empty when the address of the peer cannot be parsed as a plain IP
+// (IPv6 link-local addresses carry a zone, i.e. fe80::1%eth0): in this case,
+// the address of the peer is returned as it is, so that different clients never share the same value.
+func ClientIP(ctx *gin.Context) string {
+	if ip := ctx.ClientIP(); ip != "" {
+		return ip
+	}
+
+	host, _, _ := net.SplitHostPort(ctx.Request.RemoteAddr)
+	return host
+}
+
 // RemoteAddr returns the remote address of an HTTP client,
 // with the IP replaced by the real IP passed by any proxy in between.
 func RemoteAddr(ctx *gin.Context) string {
-	ip := ctx.ClientIP()
+	ip := ClientIP(ctx)
 	_, port, _ := net.SplitHostPort(ctx.Request.RemoteAddr)
 	return net.JoinHostPort(ip, port)
 }
